@@ -13,5 +13,5 @@ CONSTANTS
   BinStarts = {0, 65, 128, 200, 255}
   BinStrides = {1, 57}
   BinNs = {1, 2, 5, 31, 32, 33, 62, 120}
-  NFaults = 2
+  NFaults = 3
 CHECK_DEADLOCK FALSE
